@@ -27,7 +27,7 @@ def load_known_findings():
 def _budget(tier):
     if tier == 'thorough':
         return dict(z3_ms=5000, cvc5_s=120, z3_s=120, both=False)
-    return dict(z3_ms=1500, cvc5_s=25, z3_s=25, both=False)
+    return dict(z3_ms=1500, cvc5_s=12, z3_s=12, both=False)
 
 
 def work_function(args):
